@@ -163,6 +163,11 @@ def gen_cyclic(rng):
         for _ in range(2 * n):
             a, b = rng.sample(range(n), 2)
             cons.append((a, b, g()))
+    if rng.random() < 0.2:
+        # one-edge cycles: a constraint from a variable to itself (contradictory when its gap is positive)
+        for _ in range(rng.choice([1, 1, 2])):
+            i = rng.randrange(n)
+            cons.insert(rng.randrange(len(cons) + 1), (i, i, rng.choice([0, 1, 3, rng.uniform(0, 10)])))
     d = [rng.choice([0, 5, 10, rng.uniform(-50, 50)]) for _ in range(n)]
     w = [rng.choice([1, 1, 1, 0.5, 2, 1e3]) for _ in range(n)]
     sc = [1] * n if rng.random() < 0.7 else [rng.choice([0.5, 1, 2]) for _ in range(n)]
